@@ -146,12 +146,14 @@ func (ec *EphemeralContractor) LockV2Contract(contractID types.FileContractID) (
 	if ec.locks[contractID] {
 		return rhp4.RevisionState{}, nil, errors.New("contract already locked")
 	}
-	ec.locks[contractID] = true
 
 	rev, ok := ec.contracts[contractID]
 	if !ok {
 		return rhp4.RevisionState{}, nil, errors.New("contract not found")
 	}
+	// only lock contracts that exist: a lock taken for an unknown ID would
+	// never be released
+	ec.locks[contractID] = true
 
 	_, renewed := ec.contracts[contractID.V2RenewalID()]
 
